@@ -51,6 +51,12 @@ func (a *App) typePrefix() string {
 	case "tapp":
 		return "tapp_"
 	case "foo":
+		switch strings.ToLower(a.ownerKind()) {
+		case "statefulset", "statefulsets":
+			return "sts_"
+		case "deployment", "replicaset":
+			return "dp_"
+		}
 		return strings.ToLower(a.ownerKind()) + "_"
 	}
 	return "NULL_"
@@ -203,6 +209,7 @@ func profileFor(prop string) Profile {
 		p.Cloud = 4
 		p.CloudErr, p.Relist, p.AdminRelease = true, true, true
 		p.Stall = true
+		p.Ranges = true // pods with several IPs: the provider is asked once per IP, each call may fail on its own
 	case "C02":
 		p.Ops = [2]int{15, 50}
 		p.Stall = true
@@ -383,8 +390,18 @@ func newWorld(s *core.Sim, prop, tier string) *World {
 	w.faultsOn = true
 	// static cluster objects
 	for _, n := range w.topo.Nodes {
+		// a node reports several addresses; the internal one is what the node subnets are about, wherever it is listed
+		addrs := []corev1.NodeAddress{{Type: corev1.NodeInternalIP, Address: n.IP}}
+		switch c.Choose(4) {
+		case 1:
+			addrs = append([]corev1.NodeAddress{{Type: corev1.NodeHostName, Address: n.Name}}, addrs...)
+		case 2:
+			addrs = append([]corev1.NodeAddress{{Type: corev1.NodeExternalIP, Address: "10.2.0.77"}, {Type: corev1.NodeHostName, Address: n.Name}}, addrs...)
+		case 3:
+			addrs = append(addrs, corev1.NodeAddress{Type: corev1.NodeExternalIP, Address: "10.1.0.78"})
+		}
 		node := corev1.Node{TypeMeta: metav1.TypeMeta{Kind: "Node", APIVersion: "v1"}, ObjectMeta: metav1.ObjectMeta{Name: n.Name},
-			Status: corev1.NodeStatus{Addresses: []corev1.NodeAddress{{Type: corev1.NodeInternalIP, Address: n.IP}}}}
+			Status: corev1.NodeStatus{Addresses: addrs}}
 		w.mustCreate("nodes", node)
 	}
 	w.mustCreate("configmaps", corev1.ConfigMap{TypeMeta: metav1.TypeMeta{Kind: "ConfigMap", APIVersion: "v1"},
@@ -1100,7 +1117,7 @@ func (w *World) newPodObject(a *App, name string, index int) corev1.Pod {
 		ann[annPool] = a.Pool
 	}
 	if len(a.Ranges) > 0 {
-		ca := cniArgsJSON{RequestIPRange: a.Ranges}
+		ca := cniArgsJSON{RequestIPRange: encodeRanges(a.Ranges)}
 		b, _ := json.Marshal(ca)
 		ann[annArgs] = string(b)
 	}
@@ -1296,4 +1313,39 @@ func (w *World) crashForRecovery() {
 	w.probe = nil
 	w.recovering = true
 	w.faultsOn = false
+}
+
+// encodeRanges writes each list of the request the way users do: runs of consecutive addresses as one "first~last"
+// string, single addresses as they are (the model keeps the explicit lists).
+func encodeRanges(lists [][]string) [][]string {
+	last := func(ip string) int {
+		n, _ := strconv.Atoi(ip[strings.LastIndex(ip, ".")+1:])
+		return n
+	}
+	var out [][]string
+	for _, l := range lists {
+		sorted := append([]string(nil), l...)
+		sort.Slice(sorted, func(i, j int) bool {
+			pi, pj := sorted[i][:strings.LastIndex(sorted[i], ".")], sorted[j][:strings.LastIndex(sorted[j], ".")]
+			if pi != pj {
+				return pi < pj
+			}
+			return last(sorted[i]) < last(sorted[j])
+		})
+		var enc []string
+		for i := 0; i < len(sorted); {
+			j := i
+			for j+1 < len(sorted) && sorted[j+1][:strings.LastIndex(sorted[j+1], ".")] == sorted[i][:strings.LastIndex(sorted[i], ".")] && last(sorted[j+1]) == last(sorted[j])+1 {
+				j++
+			}
+			if j > i {
+				enc = append(enc, sorted[i]+"~"+sorted[j])
+			} else {
+				enc = append(enc, sorted[i])
+			}
+			i = j + 1
+		}
+		out = append(out, enc)
+	}
+	return out
 }
